@@ -56,7 +56,7 @@ def source(body):
         if dim:
             attr += ", dimension(%s)" % dim
         if isarg:
-            attr += ", intent(in)" if ty == "integer" else ", intent(inout)"
+            attr += ", intent(in)" if (ty == "integer" or v in REAL_PASSIVE) else ", intent(inout)"
         out.append("  %s :: %s" % (attr, v))
     out += ["  " + l for l in body]
     out += ["end subroutine k", "end module k_mod", ""]
@@ -149,28 +149,39 @@ NESTED = {
 }
 
 
+# bodies with one active array: cheap carriers for the loop-head coverage
+BODIES["recur1"] = ["a(i) = r(i)*a(i) + a(i-1)"]
+HEAD_BODIES = ["both", "recur1", "stencil"]
+# representative heads every body meets in the quick tier
+QUICK_HEADS = [("1", "n", "1"), ("m", "2*n", "2"), ("1", "n-1", "3"), ("n", "1", "-1"),
+               ("7", "m", "-2"), ("1+m", "n", "2")]
+
+
+def _loop(h, nm):
+    return ("L|%s,%s,%s|%s" % (h + (nm,)),
+            [head_text(h)] + ["  " + l for l in BODIES[nm]] + ["end do"])
+
+
 def kernels(tier):
     '''Yield (id, body lines).'''
     heads = loop_heads(tier)
     names = list(BODIES)
+    seen = set()
     if tier == "quick":
-        # every head with three bodies (rotating), so that every body meets
-        # every step and about a fifth of the bound pairs
-        for k, h in enumerate(heads):
-            for d in range(3):
-                nm = names[(3 * k + d) % len(names)]
-                yield ("L|%s,%s,%s|%s" % (h + (nm,)),
-                       [head_text(h)] + ["  " + l for l in BODIES[nm]] + ["end do"])
+        # every head with one cheap body (rotating); every body with six heads
+        pairs = [(h, HEAD_BODIES[k % len(HEAD_BODIES)]) for k, h in enumerate(heads)]
+        pairs += [(h, nm) for nm in names for h in QUICK_HEADS]
     else:
-        for h in heads:
-            for nm in names:
-                yield ("L|%s,%s,%s|%s" % (h + (nm,)),
-                       [head_text(h)] + ["  " + l for l in BODIES[nm]] + ["end do"])
+        pairs = [(h, nm) for h in heads for nm in names]
+    for h, nm in pairs:
+        if (h, nm) not in seen:
+            seen.add((h, nm))
+            yield _loop(h, nm)
     for nm, body in STRAIGHT.items():
         yield ("S|" + nm, list(body))
     for nm, body in NESTED.items():
         yield ("N|" + nm, list(body))
-    # a loop between straight-line statements; two loops in sequence
+    # a loop between straight-line statements
     for h in [("1", "n", "1"), ("1+m", "n", "2"), ("n", "1", "-2"), ("m", "n-1", "3")]:
         yield ("M|%s,%s,%s" % h,
                ["s = s + a(0)", head_text(h), "  a(i) = a(i) + s*r(i)", "  b(i) = b(i) - a(i-1)",
